@@ -24,14 +24,23 @@ PROBES = {("asm_manual_parser_w_regex.py", "operand_is_int"), ("asm_manual_parse
 
 
 def _reraises(body: List[ast.stmt]) -> bool:
-    """every path through the handler body ends in raise"""
-    if not body:
-        return False
-    last = body[-1]
-    if isinstance(last, ast.Raise):
-        return True
-    if isinstance(last, ast.If):
-        return bool(last.orelse) and _reraises(last.body) and _reraises(last.orelse)
+    """every path through the handler body ends in `raise` (no path returns, continues or falls through)"""
+    for st in body:
+        if isinstance(st, ast.Raise):
+            return True
+        if isinstance(st, (ast.Return, ast.Continue, ast.Break)):
+            return False
+        if isinstance(st, ast.If):
+            if _reraises(st.body) and st.orelse and _reraises(st.orelse):
+                return True
+            # a branch that does not raise must at least not leave the handler normally
+            for n in ast.walk(st):
+                if isinstance(n, (ast.Return, ast.Continue, ast.Break)):
+                    return False
+            continue
+        for n in ast.walk(st):
+            if isinstance(n, (ast.Return, ast.Continue, ast.Break)):
+                return False
     return False
 
 
@@ -82,6 +91,7 @@ def fault_jobs() -> List[Dict[str, Any]]:
     add("rule-missing", rule_missing=True)
     add("binary-garbage", binary=True, garbage=True)
     add("objdump-absent", binary=True, listing=ASM_SRC, no_objdump=True)
+    add("objdump-error-after-banner", binary=True, listing=ASM_SRC, rule="config:\n  sections:\n    - .no_such_section\n" + VALID_RULE)
     add("yaml-malformed", rule="pattern:\n  - push: [rbp\n")
     add("pattern-missing", rule="config:\n  style: att\n")
     add("pattern-scalar", rule="pattern: 5\n")
